@@ -355,20 +355,20 @@ Proof.
 Qed.
 
 (* live documents of the merged segment of one task, whether it is kept or skipped *)
-Definition task_news (m_file : bool) (r : list seg) (t : task) : list seg :=
+Definition task_news (file : bool) (r : list seg) (t : task) : list seg :=
   match t_caps t with
   | [] => []
   | _ =>
     let nd := merged_docs (t_caps t) in
     let del := fold_left (fun acc x => if is_del acc x then acc else acc ++ [x])
                          (task_new_deleted r t) [] in
-    if (length del <? length nd)%nat then [mkSeg (t_new t) nd del m_file] else []
+    if (length del <? length nd)%nat then [mkSeg (t_new t) nd del file] else []
   end.
 
 Lemma introduce_merge_root_news : forall m r,
   introduce_merge_root m r =
   filter (fun s => negb (mem_id (sid s) (captured_ids m)) && has_live s) r ++
-  flat_map (task_news (m_file m) r) (m_tasks m).
+  flat_map (task_news true r) (m_tasks m).
 Proof. reflexivity. Qed.
 
 Lemma task_news_live : forall f r t,
@@ -511,10 +511,10 @@ Proof.
   apply Permutation_sym.
   eapply Permutation_trans; [exact (root_live_split_ids r (captured_ids m) Hcap Hr)|].
   apply Permutation_app_head.
-  assert (H : root_live (flat_map (task_news (m_file m) r) (m_tasks m)) =
+  assert (H : root_live (flat_map (task_news true r) (m_tasks m)) =
               flat_map (id_now r) (captured_ids m)).
   { unfold root_live, captured_ids. rewrite !flat_map_flat_map.
-    apply flat_map_ext_in. intros t Ht. fold (root_live (task_news (m_file m) r t)).
+    apply flat_map_ext_in. intros t Ht. fold (root_live (task_news true r t)).
     rewrite task_news_live.
     - rewrite flat_map_map. reflexivity.
     - exact (NoDup_flat_map_in (fun t => map sid (t_caps t)) (m_tasks m) t Hcap Ht).
